@@ -675,6 +675,58 @@ impl ClusterState {
     }
 }
 
+/// Verification hooks: in-memory construction and tablet bookkeeping entry points.
+#[cfg(scylla_verif)]
+impl ClusterState {
+    /// Builds a `ClusterState` from ready-made nodes, a ring and keyspaces,
+    /// precomputing replica sets for `precompute`.
+    pub(crate) fn verif_new(
+        nodes: Vec<Arc<Node>>,
+        ring: Vec<(Token, Arc<Node>)>,
+        keyspaces: HashMap<String, Keyspace>,
+        precompute: &[Strategy],
+    ) -> Self {
+        let known_nodes: KnownNodes = nodes.iter().map(|n| (n.host_id, Arc::clone(n))).collect();
+        let mut tablets = TabletsInfo::new();
+        Self::perform_tablets_maintenance(&mut tablets, &HashMap::new(), &known_nodes, &keyspaces);
+        let locator = ReplicaLocator::new(ring.into_iter(), precompute.iter(), tablets);
+        ClusterState {
+            all_nodes: nodes,
+            known_nodes,
+            keyspaces,
+            locator,
+            cluster_name: None,
+        }
+    }
+
+    /// The successor state after a topology/schema refresh: tablets are carried
+    /// over and maintained exactly as `new_updated` does.
+    pub(crate) fn verif_new_updated(
+        &self,
+        nodes: Vec<Arc<Node>>,
+        ring: Vec<(Token, Arc<Node>)>,
+        keyspaces: HashMap<String, Keyspace>,
+        precompute: &[Strategy],
+    ) -> Self {
+        let known_nodes: KnownNodes = nodes.iter().map(|n| (n.host_id, Arc::clone(n))).collect();
+        let mut tablets = self.locator.tablets.clone();
+        Self::perform_tablets_maintenance(&mut tablets, &self.known_nodes, &known_nodes, &keyspaces);
+        let locator = ReplicaLocator::new(ring.into_iter(), precompute.iter(), tablets);
+        ClusterState {
+            all_nodes: nodes,
+            known_nodes,
+            keyspaces,
+            locator,
+            cluster_name: None,
+        }
+    }
+
+    /// Feeds raw tablets through the same path the cluster worker uses.
+    pub(crate) fn verif_update_tablets(&mut self, raw: Vec<(TableSpec<'static>, RawTablet)>) {
+        self.update_tablets(raw)
+    }
+}
+
 /// Additional API for interop-based code.
 #[cfg(all(scylla_unstable, feature = "unstable-csharp-rs"))]
 impl ClusterState {
